@@ -3,13 +3,13 @@
 package sqlmem
 
 import (
+	"context"
 	"database/sql"
 	"database/sql/driver"
 	"errors"
 	"fmt"
 	"io"
 	"strings"
-	"sync"
 )
 
 var ErrInjected = errors.New("injected driver fault")
@@ -53,36 +53,21 @@ func NewStore() *Store {
 	return &Store{Tables: map[string]*Table{}, FailNextAt: -1, FailExecAt: -1}
 }
 
-var (
-	mu     sync.Mutex
-	stores = map[string]*Store{}
-	once   sync.Once
-)
-
-// Open registers the store under a fresh name and opens a *sql.DB on it.
+// Open opens a *sql.DB on the store. The store is handed to database/sql through a driver.Connector: nothing is
+// registered globally, so a store (with its rows and recorded statements) is garbage once its DB is closed.
 func Open(s *Store) *sql.DB {
-	once.Do(func() { sql.Register("qfmem", drv{}) })
-	mu.Lock()
-	name := fmt.Sprintf("store%d", len(stores))
-	stores[name] = s
-	mu.Unlock()
-	db, err := sql.Open("qfmem", name)
-	if err != nil {
-		panic(err)
-	}
-	return db
+	return sql.OpenDB(connector{s})
 }
+
+type connector struct{ s *Store }
+
+func (c connector) Connect(context.Context) (driver.Conn, error) { return &conn{c.s}, nil }
+func (c connector) Driver() driver.Driver                        { return drv{} }
 
 type drv struct{}
 
 func (drv) Open(name string) (driver.Conn, error) {
-	mu.Lock()
-	s := stores[name]
-	mu.Unlock()
-	if s == nil {
-		return nil, fmt.Errorf("unknown store %q", name)
-	}
-	return &conn{s}, nil
+	return nil, fmt.Errorf("sqlmem stores are opened with sqlmem.Open, not by name (%q)", name)
 }
 
 type conn struct{ s *Store }
